@@ -32,6 +32,10 @@ def get_lindblad_operators(
 
         dephasing[0, 0] = c
         dephasing[1, 1] = -c
+        # pulser's dephasing operator is sqrt(2 * rate) |r><r| (|d><d| for XY): up to a multiple
+        # of the identity that is c * (1 - 2|r><r|), so the leakage level enters with +c too
+        for level in range(2, dim):
+            dephasing[level, level] = c
 
         return [dephasing]
 
